@@ -171,6 +171,8 @@ static inline _Bool shim_cas_bool(_Bool *obj, _Bool *expected, _Bool desired, in
   if (*obj == *expected && !SHIM_CAS_FAILS(weak)) { *obj = desired; return 1; }
   *expected = *obj; return 0; }
 static inline _Bool shim_xchg_bool(_Bool *obj, _Bool v) { _Bool o = *obj; *obj = v; return o; }
+/* ---- <cstdlib> rand(): any value in [0, RAND_MAX] (2147483647 with glibc) ---- */
+static inline int shim_rand(void) { int r = nondet_int(); __CPROVER_assume(r >= 0); return r; }
 /* ---- roundf: cbmc 6.11's own model of roundf crashes symex after dfcc instrumentation ("l2_rename_rvalues case
    floatbv_typecast not handled"); round half away from zero, exact: values of magnitude >= 2^23, NaN and infinities are
    integral already / returned unchanged, below that the conversion to long is in range ---- */
